@@ -820,9 +820,84 @@ def op_exact(o):
     return False
 
 
+def _outcome(out):
+    if not isinstance(out, dict):
+        return "?"
+    return "err:" + out["err"] if "err" in out else ("scalar" if "scalar" in out else "ok")
+
+
+def _route_key(r):
+    """which branch of the constructor automaton a construction request drives"""
+    kind = r["route"]
+    if kind == "init":
+        v = r.get("values") if r.get("nargs", 3) >= (2 if r["form"] == "cat" else 1) else None
+        first = "str" if (r["form"] == "cat" and "str" in r["c"]) else ("qty" if r["form"] == "cat" else "values")
+        return "init/%s-first values=%s dim%s2 attr=instance kw=no" % (
+            first, "no" if v is None else ("unsized" if v == "unsized" else "yes"), "<" if r["dim"] < 2 else ">=")
+    attr = {"none": "None", "v3": "pinned", "v1": "pinned", "missing": "absent"}[r["cls"]]
+    if kind == "internal" and r.get("inst") is not None:
+        attr = "instance"
+    given = "+".join(k for k in ("values", "value") if r.get(k) is not None) or "none"
+    if "unsized" in (r.get("values"), r.get("value")):
+        given += "(unsized)"
+    return "%s attr=%s kw=%s given=%s" % (kind, attr, "no" if r.get("dimension") is None else "yes", given)
+
+
+def _op_key(o):
+    do = o["do"]
+    if do == "createCopy":
+        return "createCopy values=%s unit=%s category=%s" % tuple(
+            "no" if o.get(k) is None else "yes" for k in ("values", "unit", "category"))
+    if do == "arith":
+        rhs = o["rhs"]
+        kind = "array" if ("arr" in rhs or "other" in rhs) else ("number" if "num" in rhs else "ndarray")
+        return "arith %s %s %s" % (o["aop"], kind, "self-left" if rhs.get("left", True) else "self-right")
+    if do == "changingIndex":
+        v = o["value"]
+        kind = "number" if "num" in v else ("Scalar" if "scalar" in v else "tuple%d" % len(v["tup"]))
+        return "changingIndex %s use_value_unit=%s index%s0" % (kind, o.get("uvu", "default"), "<" if o["index"] < 0 else ">=")
+    if do == "indexAsScalar":
+        return "indexAsScalar quantity=%s index%s0" % ("no" if o.get("quantity") is None else "yes", "<" if o["index"] < 0 else ">=")
+    return do
+
+
+def _count(ctx, c, io):
+    """input distribution for the evidence: branch of the modelled function x outcome on the real code"""
+    br = ctx.notes.setdefault("branches", {})
+
+    def hit(key):
+        br[key] = br.get(key, 0) + 1
+
+    t = c["_t"]
+    if c["op"] == "make":
+        hit("%s -> %s" % (_route_key(t), _outcome(io)))
+    elif c["op"] == "step":
+        hit("%s -> %s" % (_op_key(t["o"]), _outcome(io.get("out"))))
+    elif c["op"] == "chain":
+        n = 0
+        for cmd, s in zip(t["cmds"], io.get("steps", [])):
+            if s.get("kind") == "skip":
+                continue
+            n += 1
+            hit("chain: %s -> %s" % (_route_key(cmd["make"]) if "make" in cmd else _op_key(cmd["o"]), _outcome(s.get("out"))))
+        ln = ctx.notes.setdefault("chain_lengths", {})
+        ln[str(n)] = ln.get(str(n), 0) + 1
+    elif c["op"] == "curve":
+        if io.get("new") != "ok":
+            hit("Curve() -> err:%s" % io.get("new"))
+        else:
+            hit("Curve() -> ok")
+            for o, s in zip(t["ops"], io.get("steps", [])):
+                hit("curve: Set%s -> %s" % (o["set"].capitalize(), s["res"] if s["res"] == "ok" else "err:" + s["res"]))
+
+
 def agree(c, io, mo, ctx):
     if "detail" in io:
         return "implementation wrapper problem: %s" % io["detail"]
+    try:
+        _count(ctx, c, io)
+    except Exception as e:  # the counters are bookkeeping only
+        ctx.notes.setdefault("counter_errors", []).append(repr(e)[:120])
     t = c["_t"]
     if c["op"] == "make":
         why = cmp_outcome(io, mo, True)
@@ -991,6 +1066,30 @@ def _phys(u_from, u_to, x):
     return db.Convert(db.GetQuantityType(u_from), u_from, u_to, x)
 
 
+def _unit_ok_for(src, unit):
+    """the unit is one the source's category accepts (asked of the real API, sizes not involved)"""
+    from barril.units import ObtainQuantity
+
+    try:
+        if src.category:
+            ObtainQuantity(unit, src.category)
+        else:
+            ObtainQuantity(unit)
+        return True
+    except Exception:
+        return False
+
+
+def _same_dimension(u1, u2):
+    """two units measure the same thing (or one operand has no unit at all)"""
+    from barril.units import UnitDatabase
+
+    if not u1 or not u2:
+        return True
+    db = UnitDatabase.GetSingleton()
+    return db.GetQuantityType(u1) is not None and db.GetQuantityType(u1) == db.GetQuantityType(u2)
+
+
 def _near(a, b, *mags):
     tol = 1e-9 * (abs(a) + abs(b) + sum(abs(m) for m in mags)) + 1e-300
     return abs(a - b) <= tol
@@ -1008,15 +1107,17 @@ def _check_op(src, o, store):
         return dict(clause="an operation leaves its source unchanged", op=o, before=str(before[:6]), after=str(snapshot(src)[:6])), None
     do = o["do"]
     if e is not None:
+        # ValueError is demanded only of a call that is legal apart from its sizes (a unit the source's
+        # category does not accept, or operands of different dimensions, may fail their own way first)
         size_bad = False
         if do == "createCopy" and isinstance(o.get("values"), dict) and o.get("category") is None and \
-                (o.get("unit") is None or o.get("unit") in UNITS_OK):
+                (o.get("unit") is None or _unit_ok_for(src, o.get("unit"))):
             size_bad = len(o["values"]["v"]) != src.dimension
         if do == "arith":
             rhs = o["rhs"]
-            if "arr" in rhs:
+            if "arr" in rhs and _same_dimension(src.unit, mk_qty(rhs["arr"]["q"]).GetUnit()):
                 size_bad = len(rhs["arr"]["v"]) != len(src_vals)
-            if "other" in rhs:
+            if "other" in rhs and _same_dimension(src.unit, store[rhs["other"]].unit):
                 size_bad = len(store[rhs["other"]].values) != len(src_vals)
         if size_bad and not isinstance(e, ValueError):
             return dict(clause="an attempt that would break the size invariant raises ValueError", op=o, observed=repr(e)), None
